@@ -280,6 +280,26 @@ func TestC14(t *testing.T) {
 		}
 	})
 
+	// long identifiers of every length 1..80 that end in, start with or contain a keyword
+	var longIDs []string
+	for n := 1; n <= 80; n++ {
+		w := strings.Repeat("a", n)
+		u := "max_" + strings.Repeat("b", n)
+		for _, kwd := range []string{"limit", "or", "union", "select", "having", "and", "mod", "like", "in", "is", "not"} {
+			for _, id := range []string{w + "_" + kwd, w + kwd, kwd + "_" + w, u + "_" + kwd, w[:n/2] + "_" + kwd + "_" + w[n/2:]} {
+				if isBenignWord(id) {
+					longIDs = append(longIDs, id)
+				}
+			}
+		}
+	}
+	p = c.rec.NewPart("long_identifiers_exhaustive", fmt.Sprintf("%d identifiers of length 3..170 that end in, begin with or contain a keyword (every length) x 6 templates", len(longIDs)), false, true, "")
+	c.ParRange(p, int64(len(longIDs)), func(w *Worker, i int64) {
+		for _, t := range []string{"W", "W 25", "25 W", "a W 1", "W W", "1 W 2 W 3"} {
+			w.Judge(ev.Case{Kind: "words", In: strings.ReplaceAll(t, "W", longIDs[i])})
+		}
+	})
+
 	wg := wordGen(words)
 	ng := rapid.StringMatching(`[0-9]{1,12}`)
 	item := rapid.OneOf(wg, wg, ng)
